@@ -537,6 +537,30 @@ def namespace_check(step):
                     continue
                 if got is not obj:
                     problems.append(["name-identity", f"{pkg}.{name}", f"is not {gp}.{name}"])
+    # (v) a tool walks the package tree and imports every module it is told about (documentation builders, freezers,
+    # test collectors do): afterwards no source file has been executed as two different modules - a class defined in
+    # a file that was loaded twice is no longer one object everywhere
+    if step.get("walk") and not problems:
+        import pkgutil
+        with contextlib.redirect_stdout(buf):
+            try:
+                listed = [m.name for m in pkgutil.walk_packages(eolib.__path__, "eolib.", onerror=lambda name: None)]
+            except BaseException as e:  # noqa
+                listed = []
+                problems.append(["package-walk", "eolib", f"pkgutil.walk_packages raised {type(e).__name__}: {e}"])
+            for name in listed:
+                try:
+                    importlib.import_module(name)
+                except BaseException:  # noqa  (a listed module that cannot be imported is reported by (i)-(iv) where it matters)
+                    pass
+        by_file = {}
+        for name, mod in sorted(sys.modules.items()):
+            f = getattr(mod, "__file__", None)
+            if name.startswith("eolib") and f and getattr(mod, "__name__", None) == name:
+                by_file.setdefault(os.path.realpath(f), []).append(name)
+        for f, names in sorted(by_file.items()):
+            if len(names) > 1:
+                problems.append(["module-loaded-twice", names[0], f"{os.path.basename(f)} was executed as {names}"])
     return out
 
 
